@@ -459,3 +459,24 @@ def register(M):
     M('C19_noimportstar', ['C19'], 'runner.py',
       "                    if ' import *' in line:\n                        continue", "                    if line.endswith(' import *'):\n                        continue",
       'star imports followed by a comment are kept')
+
+    # ---- C12 ---------------------------------------------------------------
+    M('C12_nostop', ['C12'], 'utils/util_stream.py',
+      "            finally:\n                self.stop()", "            if type_ is None:\n                self.stop()",
+      'CaptureStdout does not restore sys.stdout when the body raised')
+    M('C12_stop_suppress', ['C12'], 'utils/util_stream.py',
+      "        if self.enabled:\n            self.started = False\n            sys.stdout = self.orig_stdout",
+      "        if self.enabled and self.suppress:\n            self.started = False\n            sys.stdout = self.orig_stdout",
+      'sys.stdout only restored when output is suppressed (leak at verbosity >= 2)')
+    M('C12_nocatch', ['C12'], 'doctest_example.py',
+      "        with warnings.catch_warnings(record=True) as self.warn_list:\n            for partx, part in enumerate(self._parts):",
+      "        self.warn_list = []\n        if True:\n            for partx, part in enumerate(self._parts):",
+      'warning filters changed by the doctest are not restored')
+    M('C12_loop', ['C12'], 'doctest_example.py',
+      "                                else:\n                                    asyncio.run(eval(code, test_globals))",
+      "                                else:\n                                    asyncio.new_event_loop().run_until_complete(eval(code, test_globals))",
+      'awaiting parts run on a fresh event loop that is never closed')
+    M('C12_baseexc', ['C12'], 'utils/util_stream.py',
+      "        if trace is not None:\n            return False  # return a falsey value on error",
+      "        if trace is not None:\n            if not isinstance(value, Exception):\n                sys.stdout = self.cap_stdout\n            return False  # return a falsey value on error",
+      'after SystemExit / KeyboardInterrupt the capture stream stays installed')
